@@ -242,11 +242,37 @@ func oracleRestore(c *Ctx) error {
 			}
 			return unchangedAll(c, "restore was refused")
 		}
+		occupied := false
+		for p := range targets {
+			if pre.Work.Dirs[p] || underFile(pre, p) {
+				occupied = true // the place of a tracked path is taken by a directory, or a file sits where its directory should be
+			}
+			for q := range targets {
+				if dirPrefix(p, q) {
+					occupied = true // the staging area holds a file and paths beneath a directory of the same name: both cannot exist on disk
+				}
+			}
+		}
+		if c.Res.Exit != 0 && occupied {
+			// the statement does not say that restore removes what is in the way: a failure is tolerated,
+			// but nothing else may change
+			stats.Label("restore:path-occupied")
+			if d := sbx.DiffFiles(pre.Work, post.Work, func(rel string) bool { return targets[rel] }); len(d) > 0 {
+				return fmt.Errorf("failed restore %q changed other files: %v", args, d)
+			}
+			if d := sbx.Diff(pre.Goit, post.Goit, nil); len(d) > 0 {
+				return fmt.Errorf("restore (working tree) changed .goit: %v", d)
+			}
+			return nil
+		}
 		if c.Res.Exit != 0 {
 			return fmt.Errorf("restore %q of tracked paths failed: %s", args, c.Res)
 		}
 		changed := 0
 		for p := range targets {
+			if occupied {
+				break // conflicting targets: which of them ends up on disk is not specified
+			}
 			content, ok := post.Work.Files[p]
 			if !ok {
 				return fmt.Errorf("after restore %q, tracked path %q does not exist in the working tree", args, p)
@@ -303,6 +329,42 @@ func oracleRestore(c *Ctx) error {
 			return fmt.Errorf("restore --staged of a path known to neither the staging area nor HEAD must be refused, exit=%d", c.Res.Exit)
 		}
 		return unchangedAll(c, "restore --staged was refused")
+	}
+	// a name that is a file AND a directory in (staging area ∪ HEAD) — possible after a tracked file was
+	// replaced by a directory or vice versa and both were added: which of the two an argument means is not
+	// specified; only "nothing else changes" is asserted then
+	for _, a := range args {
+		isPath, isDir := false, false
+		for _, m := range []map[string]string{pre.IdxMap, hs} {
+			if _, ok := m[a]; ok {
+				isPath = true
+			}
+			for p := range m {
+				if under(a, p) {
+					isDir = true
+				}
+			}
+		}
+		if isPath && isDir {
+			stats.Label("restore:ambiguous-file-and-directory")
+			if post.Index == nil {
+				return fmt.Errorf("staging area undecodable after restore --staged: %v", post.IndexErr)
+			}
+			for p, id := range pre.IdxMap {
+				if !targets[p] && post.IdxMap[p] != id {
+					return fmt.Errorf("restore --staged %q changed the entry of %q, which was not named", args, p)
+				}
+			}
+			for p := range post.IdxMap {
+				if _, ok := pre.IdxMap[p]; !ok && !targets[p] {
+					return fmt.Errorf("restore --staged %q staged %q, which was not named", args, p)
+				}
+			}
+			if d := sbx.DiffFiles(pre.Work, post.Work, nil); len(d) > 0 {
+				return fmt.Errorf("restore --staged changed the working tree: %v", d)
+			}
+			return nil
+		}
 	}
 	if c.Res.Exit != 0 {
 		return fmt.Errorf("restore --staged %q failed: %s", args, c.Res)
@@ -376,4 +438,4 @@ var profRestore = register(&Profile{
 })
 
 var restoreWeights = Weights{"write-new": 14, "modify": 14, "remove-file": 12, "rmdir": 8, "add": 18, "rm": 4, "commit": 10,
-	"restore": 20, "restore-staged": 18, "restore-invalid": 4, "reset": 3}
+	"restore": 20, "restore-staged": 18, "restore-invalid": 4, "reset": 3, "dir2file": 3, "file2dir": 3}
